@@ -2,15 +2,14 @@
 C18 — model of `nitime.analysis.spectral.FilterAnalyzer` and `nitime.algorithms.filter.boxcar_filter`
 (core Lean only).
 
-* `filteredFourier`  : `filtered_fourier` — bins selected on a frequency grid, ± index nulling, DC
-  kept, real part of the inverse transform.  The bin grid is a parameter: `gridTrue` (the true
-  bin frequency `j·Fs/n` — the INTENDED behaviour the projection theorem is about) and
-  `gridCode` (`get_freqs` as the code has it today: `linspace(0, Fs/2, int(n/2+1))`, which is
-  the true grid for even `n` only — C05's defect).  The driver returns both variants.
+* `filteredFourier`  : `filtered_fourier` — bins selected on the frequency grid `get_freqs` returns
+  (`np.fft.rfftfreq(n)·Fs`, the true bin frequency `j·Fs/n`, since commit ed873b1; the former
+  `linspace(0, Fs/2, n//2+1)` grid was wrong for odd `n`), ± index nulling, DC kept, default
+  `ub` = Nyquist, real part of the inverse transform.
 * `restoreDC`, `filtfiltWrapper` : the DC restoration around the external `scipy.signal.filtfilt`.
 * `firBandFractions`, `firPlan`, `iirPlan` : band edges as fractions of Nyquist, which designs are
   requested (the designs themselves — `firwin`, `iirdesign` — are external).
-* `boxcarFilter` : padding, convolution, central excision, high-pass by subtraction + mean;
+* `boxcarFilter` : padding, convolution, central excision + DC restoration, high-pass by subtraction + mean;
   polymorphic in the scalar (runs at `Float` and `Rat`).
 * `methodAxis` : which of rate / t0 / unit each method forwards, read off the GENERATED
   output-series descriptors (`Generated/SeriesCalls.lean`, harness/translate_c15.py).
@@ -25,14 +24,8 @@ open Nitime Nitime.Filt
 
 /-! ### Fourier-domain filter -/
 
-/-- true frequency of bin `j ≤ n/2` -/
-def gridTrue (fs : Float) (n j : Nat) : Float := j.toFloat * fs / n.toFloat
-
-/-- `get_freqs(Fs, n)[j]` = `np.linspace(0, Fs/2, int(n/2+1))[j]` -/
-def gridCode (fs : Float) (n j : Nat) : Float :=
-  let m := n / 2 + 1
-  if m ≤ 1 then 0 else
-  if j + 1 = m then fs / 2 else j.toFloat * ((fs / 2) / (m - 1).toFloat)
+/-- `get_freqs(Fs, n)[j]` = `(np.fft.rfftfreq(n) * Fs)[j]` = `(j·(1/n))·Fs`: the true frequency of bin `j ≤ n/2` -/
+def gridTrue (fs : Float) (n j : Nat) : Float := (j.toFloat * (1 / n.toFloat)) * fs
 
 /-- is bin `k` (0 ≤ k < n) kept?  DC always; otherwise its grid frequency must not be `< lb` nor `> ub`.
 The code nulls `idx` and `-idx` for every `idx ≤ n/2` outside the band, i.e. bin `k` is judged by
@@ -42,18 +35,16 @@ def keepBin (grid : Nat → Float) (lb ub : Float) (n k : Nat) : Bool :=
   let j := if k ≤ n - k then k else n - k
   !(grid j < lb) && !(grid j > ub)
 
-def filteredFourierWith (grid : Nat → Float) (lb : Float) (ub : Option Float) (n : Nat) (x : List Float) :
+def filteredFourierWith (grid : Nat → Float) (ubDefault lb : Float) (ub : Option Float) (n : Nat) (x : List Float) :
     List Float :=
-  let ub := ub.getD (grid (n / 2))           -- `self.ub = freqs[-1]`
+  let ub := ub.getD ubDefault
   let X := dft (x.toArray.map fun v => ⟨v, 0⟩)
   let Y := (Array.range n).map fun k => if keepBin grid lb ub n k then X.getD k Cx.zero else Cx.zero
   (idft Y).toList.map (·.re)
 
+/-- `ub=None` means the Nyquist frequency `Fs/2` -/
 def filteredFourier (fs lb : Float) (ub : Option Float) (x : List Float) : List Float :=
-  filteredFourierWith (gridTrue fs x.length) lb ub x.length x
-
-def filteredFourierCurrent (fs lb : Float) (ub : Option Float) (x : List Float) : List Float :=
-  filteredFourierWith (gridCode fs x.length) lb ub x.length x
+  filteredFourierWith (gridTrue fs x.length) (fs / 2) lb ub x.length x
 
 /-! ### DC restoration around `filtfilt` -/
 section dc
@@ -108,19 +99,9 @@ def boxLowpass (m : Nat) (x : List K) : List K :=
   let L := conv.length
   (conv.drop (L / 2 - n / 2)).take n
 
-/-- `boxcar_filter` on one channel as the code has it TODAY: `mUb = ceil(1/(2·ub))`,
-`mLb = ceil(1/(2·lb))` when `lb ≠ 0`; the low-pass stage does not restore the mean -/
-def boxcarFilterCurrent (mUb : Nat) (mLb : Option Nat) (x : List K) : List K :=
-  let x1 := boxLowpass mUb x
-  match mLb with
-  | none => x1
-  | some m =>
-    let lp := boxLowpass m x1
-    let mu := mean lp
-    (x1.zip lp).map fun (a, b) => a - b + mu
-
-/-- INTENDED behaviour ("all filtering methods keep the original DC component"): the low-pass
-stage puts the original mean back (proposed_fixes/C18-boxcar-lowpass-mean.diff) -/
+/-- `boxcar_filter` on one channel: `mUb = ceil(1/(2·ub))`, `mLb = ceil(1/(2·lb))` when `lb ≠ 0`;
+the low-pass stage puts the original mean back (commit 39c5aa4: "all filtering methods keep the
+original DC component") -/
 def boxcarFilter (mUb : Nat) (mLb : Option Nat) (x : List K) : List K :=
   let x1 := restoreDC (mean x) (boxLowpass mUb x)
   match mLb with
@@ -171,7 +152,7 @@ def handle (args : List String) : String :=
   | ["fourier", fs, lb, ub, x] =>
     match parseFloat? fs, parseFloat? lb, optF ub, parseFloatList? x with
     | some fs, some lb, some ub, some x =>
-      "ok " ++ showFloatList (filteredFourier fs lb ub x) ++ " " ++ showFloatList (filteredFourierCurrent fs lb ub x)
+      "ok " ++ showFloatList (filteredFourier fs lb ub x)
     | _, _, _, _ => "bad-args"
   | ["restoredc", x, y] =>
     match parseFloatList? x, parseFloatList? y with
@@ -192,14 +173,12 @@ def handle (args : List String) : String :=
       let u := match ub with | some u => u / fs | none => 1.0
       let l := lb / fs
       let ml := if l == 0 then none else some (ceilHalfInv l)
-      "ok " ++ showFloatList (boxcarFilter (ceilHalfInv u) ml x) ++ " "
-        ++ showFloatList (boxcarFilterCurrent (ceilHalfInv u) ml x)
+      "ok " ++ showFloatList (boxcarFilter (ceilHalfInv u) ml x)
     | _, _, _, _ => "bad-args"
   | ["boxcarq", mub, mlb, x] =>
     match mub.toNat?, (if mlb = "none" then some none else mlb.toNat?.map some), (splitList x).mapM parseRat? with
     | some mub, some mlb, some x =>
-      "ok " ++ joinList ((boxcarFilter mub mlb x).map showRat) ++ " "
-        ++ joinList ((boxcarFilterCurrent mub mlb x).map showRat)
+      "ok " ++ joinList ((boxcarFilter mub mlb x).map showRat)
     | _, _, _ => "bad-args"
   | ["axis", m] =>
     match methodAxis m with
